@@ -153,7 +153,7 @@ def run(ctx):
                     continue
                 cases.append(ec.enforce_case([('p:x', ev.generic('a.' + attr, rhs))], {'by': 'name', 'name': 'p:x'}, {}, {'a': stop, 'roles': []},
                                              dflt=('opt', None), want='c14'))
-    bad = ec.judge(ctx, cases)
+    bad = ec.judge(ctx, cases, chunk=3000)       # (long hostile texts make big case files: small chunks)
     for c in bad:
         o = c['obs']
         key = ('escaped:' + o['cls']) if o['o'] == 'raise' and o['cls'] not in (
